@@ -70,6 +70,7 @@ public:
 };
 
 static MockSupport* currentMockSupport = NULLPTR;
+static MockSupport* globalMockSupport = NULLPTR;
 static MockExpectedCall* expectedCall = NULLPTR;
 static MockActualCall* actualCall = NULLPTR;
 static MockFailureReporterForInCOnlyCode failureReporterForC;
@@ -231,6 +232,13 @@ static void installCopier_c (const char* typeName, MockTypeCopyFunction_c copier
 
 static void removeAllComparatorsAndCopiers_c()
 {
+    currentMockSupport->removeAllComparatorsAndCopiers();
+
+    /* The adaptors are shared by all scopes. Only a removal on mock_c() reaches every scope that may still
+     * use them; a removal on one scope must leave them alive for the others. */
+    if (currentMockSupport != globalMockSupport)
+        return;
+
     while (comparatorList_) {
         MockCFunctionComparatorNode *next = comparatorList_->next_;
         delete comparatorList_;
@@ -241,7 +249,6 @@ static void removeAllComparatorsAndCopiers_c()
         delete copierList_;
         copierList_ = next;
     }
-    currentMockSupport->removeAllComparatorsAndCopiers();
 }
 
 static MockExpectedCall_c gExpectedCall = {
@@ -1098,7 +1105,7 @@ void crashOnFailure_c(unsigned shouldCrash)
 
 MockSupport_c* mock_c()
 {
-    currentMockSupport = &mock("", &failureReporterForC);
+    globalMockSupport = currentMockSupport = &mock("", &failureReporterForC);
     return &gMockSupport;
 }
 
